@@ -106,6 +106,30 @@ func storeRule(c *core.Ctx, rule string) {
 		{"tree", "Tree", "GetRootByIndex", "VAR_T_ROOTTABLE", "", []string{"POSITION = $1"}, nil, []string{"index"}},
 		{"tree", "Tree", "GetRootByHash", "VAR_T_ROOTTABLE", "", []string{"HASH = $1"}, nil, []string{"(github.com/ethereum/go-ethereum/common.Hash).Hex(hash)"}},
 	})
+	// and answer "found" only with what the query read: no successful return that did not pass the query's nil error
+	for _, name := range []string{"getRHTNode", "GetRootByIndex", "GetRootByHash"} {
+		fn := c.MustFn(rule, "tree", "Tree", name)
+		if fn == nil {
+			continue
+		}
+		var q *ssa.Call
+		core.Instrs(fn, func(i ssa.Instruction) {
+			if core.IsCallTo(i, "github.com/russross/meddler.QueryRow") {
+				q, _ = i.(*ssa.Call)
+			}
+		})
+		ok := q != nil
+		if q != nil {
+			read := core.NilEdgesRes(fn, q, true)
+			for _, rc := range core.ReturnCases(fn) {
+				// a return that hands the query's own error on (`return row, translate(err)`) succeeds exactly when the query did
+				if len(rc.Values) == 2 && isNilConst(rc.Values[1]) {
+					ok = ok && len(read) > 0 && rc.ReachableOnlyVia(fn, read)
+				}
+			}
+		}
+		c.Decide(ok, rule, "tree.(*Tree)."+name+"#found-means-read", fn.Pos(), "a result without error is returned only after the row was read (no invented rows for special keys)")
+	}
 	sx := core.NewSymx()
 	sn := c.MustFn(rule, "tree", "Tree", "storeNodes")
 	if sn != nil {
